@@ -364,3 +364,22 @@ M('C09', 'apply-no-kernel-validation', 'focal.py', "    # Validate the kernel\n 
 T('C09', 'apply-half-floordiv', 'focal.py', "    hrows, hcols = int(krows / 2), int(kcols / 2)", "    hrows, hcols = krows // 2, kcols // 2")
 T('C09', 'apply-idx-rearranged', 'focal.py', "                        kyidx, kxidx = ky - (y - hrows), kx - (x - hcols)", "                        kyidx = ky - y + hrows\n                        kxidx = hcols + kx - x")
 T('C09', 'conv-accumulate-reordered', 'convolution.py', "                    num += kernel[iii, jjj] * data[ii, jj]", "                    num += data[ii, jj] * kernel[iii, jjj]")
+
+# ------------------------------------------------------------------------------------------------ C06
+M('C06', 'target-no-isfinite', 'proximity.py', "            if source_line[pixel] != 0 and np.isfinite(source_line[pixel]):", "            if source_line[pixel] != 0:", 'X6')
+M('C06', 'target-memory-swapped', 'proximity.py', "            pan_near_x[pixel] = pixel\n            pan_near_y[pixel] = line_id\n            continue", "            pan_near_x[pixel] = line_id\n            pan_near_y[pixel] = pixel\n            continue", 'X1')
+M('C06', 'diagonal-candidate-removed', 'proximity.py', "        if tr != end and pan_near_x[tr] != -1:", "        if False and pan_near_x[tr] != -1:", 'X2')
+M('C06', 'half-update', 'proximity.py', "                pan_near_x[pixel] = pan_near_x[last]\n                pan_near_y[pixel] = pan_near_y[last]", "                pan_near_x[pixel] = pan_near_x[last]", 'X2')
+M('C06', 'adopt-from-wrong-k', 'proximity.py', "                pan_near_x[pixel] = pan_near_x[tr]\n                pan_near_y[pixel] = pan_near_y[tr]", "                pan_near_x[pixel] = pan_near_x[tr]\n                pan_near_y[pixel] = pan_near_y[last]", 'X2')
+M('C06', 'coords-transposed', 'proximity.py', "            x1 = xs[pan_near_y[last], pan_near_x[last]]", "            x1 = xs[pan_near_x[last], pan_near_y[last]]", 'X2')
+M('C06', 'update-ignores-max-distance', 'proximity.py', "            and max_distance * max_distance >= near_distance_square\n", "", 'X5')
+M('C06', 'update-stores-square', 'proximity.py', "            line_proximity[pixel] = sqrt(near_distance_square)", "            line_proximity[pixel] = near_distance_square", 'X5')
+M('C06', 'second-pass-ascending', 'proximity.py', "        for line in prange(height - 1, -1, -1):", "        for line in prange(height):", 'X3')
+M('C06', 'both-sweeps-forward', 'proximity.py', "                pan_near_x, pan_near_y, False,\n                line, width, max_distance,\n                line_proximity, nearest_xs, nearest_ys,\n                target_values, distance_metric,\n            )\n\n            for i in prange(width):\n                img_distance[line][i] = line_proximity[i]", "                pan_near_x, pan_near_y, True,\n                line, width, max_distance,\n                line_proximity, nearest_xs, nearest_ys,\n                target_values, distance_metric,\n            )\n\n            for i in prange(width):\n                img_distance[line][i] = line_proximity[i]", 'X3')
+M('C06', 'memory-not-reset-between-passes', 'proximity.py', "        # Loop from bottom to top of the image.\n        for i in prange(width):\n            pan_near_x[i] = -1\n            pan_near_y[i] = -1\n", "        # Loop from bottom to top of the image.\n", 'X3')
+M('C06', 'allocation-transposed', 'proximity.py', "                            output_img[line][i] = img[\n                                nearest_ys[i], nearest_xs[i]]", "                            output_img[line][i] = img[\n                                nearest_xs[i], nearest_ys[i]]", 'X4')
+M('C06', 'nearest-not-reset', 'proximity.py', "            # right to left\n            for i in prange(width):\n                nearest_xs[i] = -1\n                nearest_ys[i] = -1\n", "            # right to left\n", 'X4')
+M('C06', 'unreached-zero', 'proximity.py', "                if line_proximity[i] < 0:\n                    line_proximity[i] = np.nan", "                if line_proximity[i] < 0:\n                    line_proximity[i] = 0", 'X5')
+M('C06', 'direction-north-is-zero', 'proximity.py', "    d = np.arctan2(-y, x) * 57.29578", "    d = np.arctan2(-y, x) * 57.29577951308232", 'X7')
+M('C06', 'direction-y-sign', 'proximity.py', "    d = np.arctan2(-y, x) * 57.29578", "    d = np.arctan2(y, x) * 57.29578", 'X7')
+T('C06', 'update-pow2', 'proximity.py', "            and max_distance * max_distance >= near_distance_square\n", "            and max_distance ** 2 >= near_distance_square\n")
